@@ -804,4 +804,163 @@ example : batchCallFrames ((BatchM.newWithStatements .counter [.query {}, .prepa
 example : apiRunBatch (BatchM.new .counter) [.get, .set (some 5), .get, .clone, .append, .get, .set none, .get] =
     [none, some 5, some 5, none] := by decide
 
+/-! ### inner statements of a batch -/
+
+/-- **What the code does, said outright** (connection.rs:1201 reads `batch.get_timestamp()` only): the BATCH frames
+depend on the batch's OWN timestamp alone. Whatever statements the batch holds - in particular statements carrying
+their own `set_timestamp(Some _)` - and whichever of them `prepare_batch` re-prepares, the frames are those of the
+batch-level timestamp: a timestamp set on a statement INSIDE a batch is not sent (the BATCH frame has a single
+timestamp field). C18's last clause therefore holds for a batch only through `Batch::set_timestamp`. -/
+theorem inner_statement_timestamps_are_ignored (b : BatchM) (stmts' : List BatchStmtM)
+    (needs needs' : BatchStmtM → Bool) (gen : Option (Unit → Int)) (resends : Nat) :
+    batchCallFrames { b with stmts := stmts' } needs' gen resends = batchCallFrames b needs gen resends ∧
+    batchCallFrames b needs gen resends = batchFrames b.getTimestamp gen resends := by
+  unfold batchCallFrames
+  rw [(connPrepareBatch_keeps_timestamp _ needs').1, (connPrepareBatch_keeps_timestamp _ needs).1]
+  exact ⟨rfl, rfl⟩
+
+-- a batch without a timestamp whose only statement has one: the generator's value is sent, not the statement's
+example : batchCallFrames (BatchM.newWithStatements .logged [(BatchStmtM.query {}).setTimestamp (some 7)])
+    (fun _ => false) (some fun _ => 99) 0 = [some 99] := by decide
+
+/-! ### paged executions: every page is a call of its own -/
+
+/-- One page call: every frame carries the value `pickTimestampSt` chooses and the paging state of the call;
+`resends + 1` frames. -/
+theorem pageCall_frames {σ : Type} (stmtTs : Option Int) (gen : Option (σ → Int × σ)) (s : σ) (pg : Option Nat)
+    (resends : Nat) :
+    (pageCallSt stmtTs gen s pg resends).1 =
+      List.replicate (resends + 1) { timestamp := (pickTimestampSt stmtTs gen s).1, paging := pg } ∧
+    (pageCallSt stmtTs gen s pg resends).2 = (pickTimestampSt stmtTs gen s).2 := by
+  simp [pageCallSt, framesSt]
+
+/-- **The clause for paged executions, every page**: a statement with `set_timestamp(Some t)` executed over ANY
+sequence of pages - starting from `PagingState::start()` or RESUMED from a saved state, any paging state on any
+page, any number of re-sent frames per page, any generator on the connection (or none): EVERY frame of EVERY page
+carries exactly `t`, and the generator's state at the end is its state at the beginning (never consulted). -/
+theorem explicit_timestamp_on_every_page {σ : Type} (t : Int) (gen : Option (σ → Int × σ)) (s : σ)
+    (pages : List (Option Nat × Nat)) :
+    (∀ f ∈ (pagedFramesSt (some t) gen s pages).1, f.timestamp = some t) ∧
+    (pagedFramesSt (some t) gen s pages).2 = s := by
+  induction pages generalizing s with
+  | nil => exact ⟨by simp [pagedFramesSt], rfl⟩
+  | cons p rest ih =>
+    obtain ⟨pg, rs⟩ := p
+    have h1 := pageCall_frames (some t) gen s pg rs
+    have hs : (pageCallSt (some t) gen s pg rs).2 = s := h1.2
+    simp only [pagedFramesSt, hs]
+    refine ⟨?_, (ih s).2⟩
+    intro f hf
+    rcases List.mem_append.mp hf with hf | hf
+    · rw [h1.1] at hf
+      rw [(List.mem_replicate.mp hf).2]; rfl
+    · exact (ih s).1 f hf
+
+/-- **The paging state has no say in the timestamp**: replacing the paging states of the calls by any others
+(start by saved, saved by start, ...) leaves the timestamps of all frames and the generator's final state as they
+are. In particular a page requested with a saved state is treated exactly like a first page. -/
+theorem paging_state_does_not_affect_timestamp {σ : Type} (stmtTs : Option Int) (gen : Option (σ → Int × σ)) (s : σ)
+    (pages : List (Option Nat × Nat)) (f : Option Nat → Option Nat) :
+    ((pagedFramesSt stmtTs gen s (pages.map fun p => (f p.1, p.2))).1.map (·.timestamp) =
+      (pagedFramesSt stmtTs gen s pages).1.map (·.timestamp)) ∧
+    (pagedFramesSt stmtTs gen s (pages.map fun p => (f p.1, p.2))).2 = (pagedFramesSt stmtTs gen s pages).2 := by
+  induction pages generalizing s with
+  | nil => exact ⟨rfl, rfl⟩
+  | cons p rest ih =>
+    obtain ⟨pg, rs⟩ := p
+    have h1 := pageCall_frames stmtTs gen s pg rs
+    have h2 := pageCall_frames stmtTs gen s (f pg) rs
+    simp only [List.map_cons, pagedFramesSt, List.map_append, h1.1, h2.1, h1.2, h2.2, List.map_replicate]
+    exact ⟨by rw [(ih _).1], (ih _).2⟩
+
+/-- Every frame carries the paging state of its call, in call order (the frame re-sent after UNPREPARED too). -/
+theorem frames_carry_their_paging_state {σ : Type} (stmtTs : Option Int) (gen : Option (σ → Int × σ)) (s : σ)
+    (pages : List (Option Nat × Nat)) :
+    (pagedFramesSt stmtTs gen s pages).1.map (·.paging) = (pages.map fun p => List.replicate (p.2 + 1) p.1).flatten := by
+  induction pages generalizing s with
+  | nil => rfl
+  | cons p rest ih =>
+    obtain ⟨pg, rs⟩ := p
+    have h1 := pageCall_frames stmtTs gen s pg rs
+    simp only [pagedFramesSt, List.map_append, h1.1, List.map_replicate, List.map_cons, List.flatten_cons, ih]
+
+/-- Without an explicit timestamp and with the counting generator (`next`, then `next += step`): the frames of page
+number `k` of the execution carry `next + k * step` - one fresh value per page call, continuation pages included -
+and the generator has been asked exactly once per page. -/
+theorem generated_timestamp_per_page (step : Int) (s : Int × Nat) (pages : List (Option Nat × Nat)) :
+    (pagedFramesSt none (some (ctrGen step)) s pages).1 =
+      ((pages.zipIdx.map fun (p, k) =>
+        List.replicate (p.2 + 1) ({ timestamp := some (s.1 + (k : Int) * step), paging := p.1 } : PageFrame)).flatten) ∧
+    (pagedFramesSt none (some (ctrGen step)) s pages).2 = (s.1 + (pages.length : Int) * step, s.2 + pages.length) := by
+  suffices h : ∀ (pages : List (Option Nat × Nat)) (s : Int × Nat) (i : Nat) (b : Int), s.1 = b + (i : Int) * step →
+      (pagedFramesSt none (some (ctrGen step)) s pages).1 =
+        (((pages.zipIdx i).map fun (p, k) =>
+          List.replicate (p.2 + 1) ({ timestamp := some (b + (k : Int) * step), paging := p.1 } : PageFrame)).flatten) ∧
+      (pagedFramesSt none (some (ctrGen step)) s pages).2 = (s.1 + (pages.length : Int) * step, s.2 + pages.length) by
+    exact h pages s 0 s.1 (by simp)
+  intro pages
+  induction pages with
+  | nil => intro s i b _; simp [pagedFramesSt]
+  | cons p rest ih =>
+    intro s i b hb
+    obtain ⟨pg, rs⟩ := p
+    have h1 := pageCall_frames none (some (ctrGen step)) s pg rs
+    have hp : pickTimestampSt none (some (ctrGen step)) s = (some s.1, (s.1 + step, s.2 + 1)) := rfl
+    rw [hp] at h1
+    have ih' := ih (s.1 + step, s.2 + 1) (i + 1) b (by simp only [hb]; push_cast; rw [Int.add_mul]; omega)
+    simp only [pagedFramesSt, h1.1, h1.2, List.zipIdx_cons, List.map_cons, List.flatten_cons, ih'.1, ih'.2]
+    refine ⟨by rw [hb], ?_⟩
+    simp only [List.length_cons]; push_cast
+    refine Prod.ext ?_ ?_
+    · simp only [Int.add_mul]; omega
+    · simp only []; omega
+
+/-- With a positive step the generated timestamps of LATER pages exceed those of earlier ones (they never repeat
+across pages): the timestamps along the frames are non-decreasing, and constant only within one call. -/
+theorem generated_page_timestamps_monotone (step : Int) (hstep : 0 < step) (s : Int × Nat)
+    (pages : List (Option Nat × Nat)) :
+    ∀ f ∈ (pagedFramesSt none (some (ctrGen step)) s pages).1, ∃ v, f.timestamp = some v ∧ s.1 ≤ v ∧
+      v < (pagedFramesSt none (some (ctrGen step)) s pages).2.1 := by
+  intro f hf
+  induction pages generalizing s with
+  | nil => simp [pagedFramesSt] at hf
+  | cons p rest ih =>
+    obtain ⟨pg, rs⟩ := p
+    have h1 := pageCall_frames none (some (ctrGen step)) s pg rs
+    have hp : pickTimestampSt none (some (ctrGen step)) s = (some s.1, (s.1 + step, s.2 + 1)) := rfl
+    rw [hp] at h1
+    have hfin := (generated_timestamp_per_page step (s.1 + step, s.2 + 1) rest).2
+    have hall := (generated_timestamp_per_page step s ((pg, rs) :: rest)).2
+    simp only [pagedFramesSt, h1.1, h1.2] at hf
+    have hnn : (0 : Int) ≤ (rest.length : Int) * step := Int.mul_nonneg (by omega) (by omega)
+    rcases List.mem_append.mp hf with hf | hf
+    · refine ⟨s.1, ?_, Int.le_refl _, ?_⟩
+      · rw [(List.mem_replicate.mp hf).2]
+      · rw [hall]; simp only [List.length_cons]; push_cast; simp only [Int.add_mul]; omega
+    · obtain ⟨v, hv, hlo, hhi⟩ := ih (s.1 + step, s.2 + 1) hf
+      refine ⟨v, hv, by simp only [] at hlo; omega, ?_⟩
+      rw [hall]; rw [hfin] at hhi
+      simp only [List.length_cons]; push_cast; simp only [Int.add_mul] at hhi ⊢; omega
+
+/-- No explicit timestamp and no generator: no frame of any page carries a timestamp. -/
+theorem no_timestamp_on_any_page {σ : Type} (s : σ) (pages : List (Option Nat × Nat)) :
+    ∀ f ∈ (pagedFramesSt none (none : Option (σ → Int × σ)) s pages).1, f.timestamp = none := by
+  induction pages with
+  | nil => simp [pagedFramesSt]
+  | cons p rest ih =>
+    obtain ⟨pg, rs⟩ := p
+    have h1 := pageCall_frames none (none : Option (σ → Int × σ)) s pg rs
+    have hs : (pageCallSt none (none : Option (σ → Int × σ)) s pg rs).2 = s := h1.2
+    simp only [pagedFramesSt, hs]
+    intro f hf
+    rcases List.mem_append.mp hf with hf | hf
+    · rw [h1.1] at hf; rw [(List.mem_replicate.mp hf).2]; rfl
+    · exact ih f hf
+
+-- an execution resumed from saved state 3 with an explicit timestamp, page 2 re-sent once; then a generated one
+example : pagedExecs (some (ctrGen 10)) (100, 0)
+    [(some (-5), [(some 3, 0), (some 4, 1)]), (none, [(none, 0), (some 1, 0)])] =
+    [([⟨some (-5), some 3⟩, ⟨some (-5), some 4⟩, ⟨some (-5), some 4⟩], 0),
+     ([⟨some 100, none⟩, ⟨some 110, some 1⟩], 2)] := by decide
+
 end ScyllaVerif.Props.C18
